@@ -52,7 +52,8 @@ pub fn lin_step(s: &mut LState, cmd: &Cmd, cas: u64, resp: &Option<Resp>) -> boo
     let stt = status(resp);
     if let Cmd::Flush { delay, .. } = cmd {
         if delay.unwrap_or(0) != 0 {
-            return false; // delayed flush is not part of concurrent alphabets
+            // time stands still during a concurrent phase: a delayed flush changes nothing visible
+            return if quiet { resp.is_none() } else { stt == Some(st::OK) };
         }
         for k in s.keys.values_mut() {
             k.item = None;
